@@ -411,7 +411,7 @@ def freq_cases(draw, form, psd=False):
             if md.get("zeta") == 1.0:
                 md["zeta"] = 0.7
     case = {"form": form, "modes": modes, "freq": freq, "seed": draw(st.integers(0, 2 ** 31)), "mform": mform,
-            "hyst": hyst, "cmass": form == "diag" and mform != "none" and draw(st.integers(0, 5)) == 0,
+            "hyst": hyst, "cmass": form in ("diag", "nonprop") and mform != "none" and draw(st.integers(0, 4)) == 0,
             "cforce": draw(st.booleans()), "incrb": draw(st.sampled_from(LETTERS)),
             "rf_disp_only": draw(st.booleans()), "rb_given": draw(st.booleans()), "bvec": draw(st.booleans()),
             "kvec": draw(st.booleans()), "pre_eig": pre_eig, "cpl": draw(st.sampled_from([0.05, 0.3, 0.8]))}
